@@ -33,3 +33,88 @@ def acts (names : List String) (garbage : α) (σ : Store α) (l : List (Act α)
 def deepCopy (σ : Store α) (src fresh : Nat) : Store α := setCell σ fresh (σ src)
 
 end ChiModel.Ownership
+
+/-! ## objects built from a population filter (C19): `PopulationFilterLogPosterior.__init__` takes a deep copy
+of the caller's filter and orders the measurement columns OF THE COPY in time
+(`self._filter = copy.deepcopy(population_filter); self._filter.sort_times(np.argsort(times))`).
+A filter's hidden state is the list of its measurement columns (`_observations[..., j]`). -/
+namespace ChiModel.Ownership
+variable {β : Type}
+
+/-- `observations[..., order]` -/
+def takeCols (cols : List β) (order : List Nat) : List β := order.filterMap (fun i => cols[i]?)
+
+/-- the measurement columns held by the filter object in every cell -/
+abbrev FStore (β : Type) := Nat → List β
+
+def fset (σ : FStore β) (a : Nat) (c : List β) : FStore β := fun b => if b = a then c else σ b
+
+/-- the constructor as it is: copy the caller's filter (cell `src`) into the new object's cell, order the copy -/
+def construct (order : List Nat) (σ : FStore β) (src dst : Nat) : FStore β :=
+  fset σ dst (takeCols (σ src) order)
+
+/-- the seeded variant (C19-13): order the caller's filter, then copy it -/
+def constructInPlace (order : List Nat) (σ : FStore β) (src dst : Nat) : FStore β :=
+  let σ' := fset σ src (takeCols (σ src) order)
+  fset σ' dst (σ' src)
+
+/-- what callers do: build a posterior from the filter in `src` (the new object lives in `dst`), or call
+    `sort_times(order)` on a filter of their own -/
+inductive FAct where
+  | build (src dst : Nat)
+  | sort (a : Nat) (order : List Nat)
+
+/-- the cell an action writes -/
+def FAct.target : FAct → Nat
+  | .build _ dst => dst
+  | .sort a _ => a
+
+def fact (order : List Nat) (σ : FStore β) : FAct → FStore β
+  | .build src dst => construct order σ src dst
+  | .sort a o => fset σ a (takeCols (σ a) o)
+
+def facts (order : List Nat) (σ : FStore β) (l : List FAct) : FStore β := l.foldl (fact order) σ
+
+/-- the same program with the seeded constructor -/
+def factInPlace (order : List Nat) (σ : FStore β) : FAct → FStore β
+  | .build src dst => constructInPlace order σ src dst
+  | .sort a o => fset σ a (takeCols (σ a) o)
+
+def factsInPlace (order : List Nat) (σ : FStore β) (l : List FAct) : FStore β := l.foldl (factInPlace order) σ
+
+end ChiModel.Ownership
+
+/-! ## an intermediate result remembered between evaluations, keyed by its inputs (C19)
+
+The unchanged code recomputes the covariate-transformed population parameters `T p` in every evaluation.
+A cache of the last result is pure exactly when the remembered inputs are a COPY: under a `Reduced*` wrapper
+the array that arrives is the wrapper's value buffer, which the next call rewrites in place before anything
+is compared (seeded variant C19-14); the same holds for a caller who updates his own array in place. -/
+namespace ChiModel.Ownership
+variable {α β : Type}
+
+/-- what is remembered as "the inputs of the last evaluation": their values, or the array object itself -/
+inductive Key (α : Type) where
+  | val (l : List α)
+  | buffer
+
+/-- reading the remembered inputs NOW, when the buffer holds `buf` -/
+def Key.read (buf : List α) : Key α → List α
+  | .val l => l
+  | .buffer => buf
+
+/-- one evaluation at the parameters `p` (they have just been written into the buffer): the remembered
+    value is reused when the remembered inputs compare equal to `p` -/
+def memoStep [DecidableEq α] (byRef : Bool) (T : List α → β) (m : Option (Key α × β)) (p : List α) :
+    Option (Key α × β) × β :=
+  match m with
+  | some (k, v) =>
+    if k.read p = p then (some (k, v), v) else (some (if byRef then Key.buffer else Key.val p, T p), T p)
+  | none => (some (if byRef then Key.buffer else Key.val p, T p), T p)
+
+/-- results of a sequence of evaluations -/
+def memoSeq [DecidableEq α] (byRef : Bool) (T : List α → β) : Option (Key α × β) → List (List α) → List β
+  | _, [] => []
+  | m, p :: ps => (memoStep byRef T m p).2 :: memoSeq byRef T (memoStep byRef T m p).1 ps
+
+end ChiModel.Ownership
